@@ -15,7 +15,7 @@ import (
 func init() {
 	register(&Prop{
 		ID:          "C18",
-		Explanation: "Decides where cookie attributes can come from: http.Cookie values are allocated only in MakeCookieFromOptions, copyCookie and the name validator; every argument of http.SetCookie derives from MakeCookieFromOptions (directly, through the makeCookie wrappers, splitCookie or copyCookie) and no Set-Cookie header is written by hand; in the constructor Path, HttpOnly, Secure, SameSite are wired from the same-named options (SameSite through ParseSameSite), Name and Value from the parameters, and Domain is GetCookieDomain(req, opts.Domains) or, only when that is empty and domains are configured, the last configured domain; GetCookieDomain returns an element of the list only under HasSuffix(request host, element), scanning in list order; fields of an existing cookie are stored only by the constructors, splitCookie (Name, Value) and joinCookies (Name, Value); copyCookie copies every attribute field of http.Cookie; deletions reuse the setter's name expression and options and the cookie store deletes each presented cookie under its presented name (shared with C11); validation sorts the configured domains longest-first and nothing reorders or writes that list afterwards. Added during the build: the request host is compared with cookie domains only after its port was removed, in the selector as in the warning helper (R6). Round 3: every WithContext/Clone of the inbound request keeps a context derived from its own Context() (R7). Round 4: request-reachable code never writes a field of the shared options.Cookie (R8, shared with C09.R9).",
+		Explanation: "Decides where cookie attributes can come from: http.Cookie values are allocated only in MakeCookieFromOptions, copyCookie and the name validator; every argument of http.SetCookie derives from MakeCookieFromOptions (directly, through the makeCookie wrappers, splitCookie or copyCookie) and no Set-Cookie header is written by hand; in the constructor Path, HttpOnly, Secure, SameSite are wired from the same-named options (SameSite through ParseSameSite), Name and Value from the parameters, and Domain is GetCookieDomain(req, opts.Domains) or, only when that is empty and domains are configured, the last configured domain; GetCookieDomain returns an element of the list only under HasSuffix(request host, element), scanning in list order; fields of an existing cookie are stored only by the constructors, splitCookie (Name, Value) and joinCookies (Name, Value); copyCookie copies every attribute field of http.Cookie; deletions reuse the setter's name expression and options and the cookie store deletes each presented cookie under its presented name (shared with C11); validation sorts the configured domains longest-first and nothing reorders or writes that list afterwards. Added during the build: the request host is compared with cookie domains only after its port was removed, in the selector as in the warning helper (R6). Round 3: every WithContext/Clone of the inbound request keeps a context derived from its own Context() (R7). Round 4: request-reachable code never writes a field of the shared options.Cookie (R8, shared with C09.R9). Round 6: GetRequestHost returns the forwarded-host header value or req.Host itself, unmodified (R9); the Set-Cookie lines queued on a response are never deleted or reassigned by hand (under R1).",
 		NotDecided:  "the 4096-byte bound (arithmetic over sizes), suffix-match semantics of domain selection including host-with-port (values), what http.Cookie.String() emits.",
 		Run:         runC18,
 	})
@@ -35,6 +35,7 @@ func runC18(c *Ctx) {
 	r.Rule("R6-host-port-free", "the request host is compared with cookie domains only with its port removed (selector and warning helper agree)", 2)
 	r.Rule("R7-request-context-kept", "every WithContext/Clone of the inbound request keeps a context derived from its own Context() (the request scope lives there)", 2)
 	r.Rule("R8-cookie-options-frozen", "request-reachable code never writes a field of the shared options.Cookie, so the attributes every later cookie is built from stay the configured ones (shared with C09.R9)", 1)
+	r.Rule("R9-request-host-verbatim", "the host the cookie domain is chosen for is the X-Forwarded-Host value or req.Host itself: GetRequestHost returns one of the two unmodified", 1)
 	r.Rule("R5-domain-order", "validation sorts domains longest-first; the list is never reordered or written afterwards", 4)
 
 	mk := c.Fn("R1-single-constructor", "pkg/cookies.MakeCookieFromOptions")
@@ -53,6 +54,7 @@ func runC18(c *Ctx) {
 	runC18R6(c, "R6-host-port-free")
 	runRequestContextKept(c, "R7-request-context-kept")
 	runC09R9(c, "R8-cookie-options-frozen")
+	runC18R9(c, "R9-request-host-verbatim")
 
 	// ---- R3 ---------------------------------------------------------------------------------
 	rule = "R3-no-later-rewrite"
@@ -899,4 +901,44 @@ func runQueuedCookiesUntouched(c *Ctx, rule string) {
 		}
 	}
 	c.R.OK(rule, "set-cookie-lines|all", "-", sprintf("%d http.Header method call(s) in the module: no hand-written, deleted or reassigned Set-Cookie", n))
+}
+
+// runC18R9: GetCookieDomain strips the port and suffix-matches what GetRequestHost returns. Every return of
+// GetRequestHost (helpers inlined) is the very result of http.Header.Get(...) or the request's Host field; a string
+// built from them (a port appended from another header, a normalised form) can be something no configured domain
+// matches — "[host:8443]:8443" — and the cookie silently falls back to the shortest domain.
+func runC18R9(c *Ctx, rule string) {
+	getHost := c.Fn(rule, "pkg/requests/util.GetRequestHost")
+	if getHost == nil {
+		return
+	}
+	key := "verbatim|" + fnKey(getHost)
+	n, bad := 0, false
+	c.Walk(rule, getHost, func(p *walk.Path) {
+		rv, ok := p.ReturnDV(0)
+		if !ok || bad {
+			return
+		}
+		n++
+		r := p.Resolve(rv)
+		if cl, ok := extractOfCall(p, rv, 0); ok {
+			if sc := cl.C.StaticCallee(); sc != nil && sc.String() == "(net/http.Header).Get" {
+				return
+			}
+		}
+		if u, ok := r.V.(*ssa.UnOp); ok && u.Op == token.MUL {
+			if fa, ok := u.X.(*ssa.FieldAddr); ok {
+				if f := walk.FieldOf(fa.X.Type(), fa.Field); f != nil && f.Name() == "Host" && strings.HasSuffix(fa.X.Type().String(), "net/http.Request") {
+					return
+				}
+			}
+		}
+		bad = true
+		c.bad(rule, key, p.Exit, "GetRequestHost returns a string built from the request instead of the forwarded-host header value or req.Host itself: the cookie domain is then chosen for a host the client never named", p, p.End())
+	})
+	if !bad && n > 0 {
+		c.R.OK(rule, key, c.P.Pos(getHost.Pos()), sprintf("%d return path(s): Header.Get(...) or req.Host, unmodified", n))
+	} else if !bad {
+		c.R.Unknown(rule, key, c.P.Pos(getHost.Pos()), "no return path found")
+	}
 }
